@@ -577,6 +577,40 @@ def error_discipline(ctx, tmp, viol):
                 if got != want:
                     viol(f"where={w!r} selects {sorted(got) if isinstance(got, set) else got}; the literal is the number {v}, which gives {sorted(want)}",
                          f"numeric-semantics:{lit}:{op}", {"kind": "where", "where": w})
+    # stacked unary signs: `- -3` is 3, `+-3` is -3, whatever the spacing; also next to a binary minus
+    for lit, val in [("- -3", 3), ("--3", 3), ("+-3", -3), ("-+3", -3), ("-(-3)", 3), ("- - -3", -3), ("+ +3", 3), ("- - 3", 3), ("-(- -3)", -3), ("++3", 3)]:
+        for w, fn in ((f"detector = {lit}", lambda d: d == val), (f"detector > {lit}", lambda d: d > val), (f"detector - {lit} = 5", lambda d: d - val == 5),
+                      (f"{lit} + detector = 6", lambda d: val + d == 6), (f"detector IN (1, 2) OR detector = {lit}", lambda d: d in (1, 2) or d == val)):
+            ctx.evaluations += 1
+            ctx.count("signed-literal-semantics")
+            want = {d for d in range(1, 13) if fn(d)}
+            try:
+                got = {d["detector"] for d in b.query_data_ids(["detector"], where=w, instrument="I", explain=False)}
+            except Exception as e:
+                got = f"{type(e).__name__}: {str(e)[:60]}"
+            if got != want:
+                viol(f"where={w!r} selects {sorted(got) if isinstance(got, set) else got}; with `{lit}` = {val} the documented meaning gives {sorted(want)}",
+                     f"signed-literal:{w}", {"kind": "where", "where": w})
+    # an unqualified field name that both a dimension element and a joined dataset type have (`timespan`) is ambiguous: it must be
+    # rejected, never silently given one of the two meanings
+    from lsst.daf.butler import DatasetType as _DT
+
+    dd = _DT("c14_dd", {"instrument", "day_obs"}, "StructuredDataDict", universe=b.dimensions)
+    b.registry.registerDatasetType(dd)
+    b.registry.registerRun("c14_run")
+    b.put({"x": 1}, dd, instrument="I", day_obs=20200101, run="c14_run")
+    for w in ["timespan.begin < T'2030-01-01'", "timespan.end > T'2000-01-01'", "timespan OVERLAPS T'2020-01-01T12:00:00'"]:
+        ctx.evaluations += 1
+        ctx.count("ambiguous-identifier")
+        try:
+            rows = b.query_datasets(dd, collections="c14_run", where=w, instrument="I", explain=False)
+            viol(f"query_datasets('c14_dd' over day_obs, where={w!r}): `timespan` names both day_obs.timespan and the dataset's timespan, yet the "
+                 f"expression was accepted ({len(rows)} rows)", f"ambiguous-identifier:{w}", {"kind": "where", "where": w})
+        except InvalidQueryError:
+            pass
+        except Exception as e:
+            viol(f"query_datasets(where={w!r}) with an ambiguous identifier raised {type(e).__name__} instead of the documented query error",
+                 f"ambiguous-identifier-error:{w}", {"kind": "where", "where": w})
     # documented meaning of IN / NOT IN over lists of scalars, ranges and bound values of every length
     for _ in range(120 if ctx.quick() else 3000):
         items, members, bind = [], set(), {}
